@@ -5,6 +5,8 @@
    EN  <block8> <edflag> <noise>   encrypt (static)      -> d=<8 bytes> bits01=<0|1>
    ENR <id> <block8> <edflag> <noise>                    -> d=<8 bytes> bits01=<0|1>
    CV <sym> <ver> <phrase> <setting>   crypt-like symbol bound at version -> out=<hex|NULL>
+   GV <sym> <ver> <prefix> <count> <rbytes> <nrbytes> <size>   crypt_gensalt_rn-shaped symbol bound at version -> ret= errno= buf= guard=
+   RV <sym> <ver> <phrase> <setting>   crypt_r-shaped symbol bound at version, zeroed object -> ret= errno= out=
    ABI                         -> sizeof/offsets/constants of the header this harness was compiled with
    SYMS                        -> handled by the runner (readelf)                                              */
 static void *so_handle;
@@ -82,6 +84,30 @@ static int op_so_dispatch (int n, char **tok)
       char *r = f ((char *)p, (char *)s);
       printf ("out="); if (!r) printf ("NULL"); else puthex ((unsigned char *)r, strlen (r)); printf ("\n");
       free (p); free (s); return 1;
+    }
+  if (!strcmp (tok[0], "GV") && n >= 8)
+    { /* GV <sym> <ver> <prefix> <count> <rbytes> <nrbytes> <size>: a crypt_gensalt_rn-shaped symbol bound at a version, the way an old binary calls it */
+      typedef char *(*gs_f)(const char *, unsigned long, const char *, int, char *, int);
+      size_t pl, rl; int pn, rn; unsigned char *pf = unhex (tok[3], &pl, &pn), *rb = unhex (tok[5], &rl, &rn);
+      gs_f f = (gs_f) so_sym (tok[1], tok[2]);
+      int size = atoi (tok[7]); char *buf = malloc ((size > 0 ? size : 1) + 16); memset (buf, 0x5a, (size > 0 ? size : 1) + 16);
+      if (!f) { printf ("ret=NOSYM\n"); free (pf); free (rb); free (buf); return 1; }
+      errno = 0; char *r = f (pn ? NULL : (char *)pf, strtoul (tok[4], 0, 10), rn ? NULL : (char *)rb, atoi (tok[6]), buf, size); int e = errno;
+      printf ("ret=%s errno=%s buf=", !r ? "NULL" : r == buf ? "out" : "other", r ? "0" : errname (e));
+      size_t bl = strnlen (buf, size > 0 ? (size_t)size : 0); if (size > 0 && bl == (size_t)size) printf ("unterminated"); else puthex ((unsigned char *)buf, bl);
+      printf (" guard=%s\n", (unsigned char)buf[size > 0 ? size : 1] == 0x5a ? "ok" : "hit");
+      free (pf); free (rb); free (buf); return 1;
+    }
+  if (!strcmp (tok[0], "RV") && n >= 5)
+    { /* RV <sym> <ver> <phrase> <setting>: a crypt_r-shaped symbol bound at a version, on a zeroed object */
+      typedef char *(*cr_f)(const char *, const char *, struct crypt_data *);
+      size_t pl, sl; unsigned char *p = unhex (tok[3], &pl, &isn), *st = unhex (tok[4], &sl, &isn);
+      cr_f f = (cr_f) so_sym (tok[1], tok[2]);
+      if (!f) { printf ("ret=NOSYM\n"); free (p); free (st); return 1; }
+      struct crypt_data *d = calloc (1, sizeof *d);
+      errno = 0; char *r = f ((char *)p, (char *)st, d); int e = errno;
+      printf ("ret=%s errno=%s out=", !r ? "NULL" : r == d->output ? "out" : "other", r ? "0" : errname (e)); puthex ((unsigned char *)d->output, strnlen (d->output, sizeof d->output)); printf ("\n");
+      free (d); free (p); free (st); return 1;
     }
   if (!strcmp (tok[0], "ABI"))
     {
